@@ -271,6 +271,67 @@ func runTransfer(o *Out, r *rand.Rand, thorough bool, args []string) {
 			o.Case(l[0], l[1])
 		}
 	}
+	// the stream id is drawn at random by the serving node's uTP library; every 16-bit value is an ordinary id. Here the serving
+	// half of the transfer is played for PINNED ids (the ends of the range included) exactly as handleFindContent's goroutine does
+	// it - accept on (recv=id+1, send=id), frame for the asker's version, write, close - and the asker's real reply processing
+	// takes the CONTENT message that announces that id
+	for vi, vs := range [][]uint8{{0, 1}, {0}} {
+		mn := newMemNet()
+		a := startNode(mn, r, nodeOpts{ip: net.IP{34, 1, 3, byte(1 + vi)}, port: 9320, versions: vs, utpLimit: 50})
+		b := startNode(mn, r, nodeOpts{ip: net.IP{34, 2, 4, byte(1 + vi)}, port: 9321, versions: vs, utpLimit: 50})
+		a.p.AddEnr(b.p.Self())
+		b.p.AddEnr(a.p.Self())
+		_, _ = a.p.VerifPing(b.p.Self())
+		for _, id := range []uint16{0, 1, 0xffff, uint16(2 + r.Intn(65000))} {
+			val := genBytes(5000, int(id%251))
+			cid := b.p.Utp.RecvId(a.p.Self(), id)
+			srvDone := make(chan error, 1)
+			go func() {
+				ctx, cancel := context.WithTimeout(context.Background(), 10*time.Second)
+				defer cancel()
+				conn, err := b.p.Utp.AcceptWithCid(ctx, cid)
+				if err != nil || conn == nil {
+					srvDone <- fmt.Errorf("accept: %v", err)
+					return
+				}
+				payload, err := b.p.VerifEncodeUtpContent(a.p.Self(), val)
+				if err == nil {
+					_, err = conn.Write(ctx, payload)
+				}
+				conn.Close()
+				srvDone <- err
+			}()
+			idMsg, _ := (&portalwire.ConnectionId{Id: []byte{byte(id >> 8), byte(id)}}).MarshalSSZ()
+			reply := append([]byte{portalwire.CONTENT, portalwire.ContentConnIdSelector}, idMsg...)
+			mn.resetSizes()
+			type res struct {
+				flag byte
+				data interface{}
+				err  error
+			}
+			ch := make(chan res, 1)
+			go func() {
+				f, d, err := a.p.VerifProcessContent(b.p.Self(), reply)
+				ch <- res{f, d, err}
+			}()
+			var out string
+			select {
+			case x := <-ch:
+				if x.err != nil {
+					out = "error"
+				} else if got, ok := x.data.([]byte); ok {
+					out = fmt.Sprintf("flag=%d same=%d maxdgram_ok=%d", x.flag, b2i(bytes.Equal(got, val)), b2i(mn.maxSize() <= 1280))
+				} else {
+					out = fmt.Sprintf("flag=%d notbytes", x.flag)
+				}
+			case <-time.After(40 * time.Second):
+				out = "timeout"
+			}
+			o.Case(fmt.Sprintf("transfer size=%d va=%s vb=%s streamid=%d", len(val), csv(vs), csv(vs), id), out)
+		}
+		a.stop()
+		b.stop()
+	}
 	// the serving side knows the asker by an OLDER record that advertises other versions than the asker does now (it was
 	// upgraded or rolled back and re-published its record): framing follows the record of the live session, not the table's
 	stale := [][2][]uint8{{{0}, {0, 1}}, {{0, 1}, {0}}}
